@@ -282,6 +282,20 @@ def observe(model, viol, site, probes, extra_tree):
                 # whether they also record the mode's namespace is not part of the property (they do not for small dicts)
                 if made != ref:
                     viol('order-mismatch', site, '%s with %d key(s) in namespace %r is %r but flattening the same collection gives %r' % (nm, n_keys, ns, made, ref))
+                # A constructor result is used like a flattened one (tree_transpose re-flattens its operand in the namespace the
+                # treespec RECORDED): equal treespecs must hash alike, and transposing with the constructor-made treespec must
+                # pair values by key.  (An earlier version of this check did not demand the recorded namespace; the silent
+                # mis-pairing below shows that it matters.)
+                if 'treespec_dict' == nm and n_keys == 2:
+                    if hash(made) != hash(ref) or made.namespace != ref.namespace:
+                        viol('round-trip', site, '%s in namespace %r under mode %s equals the flattened treespec but records namespace %r (flatten: %r), hashes %s' % (
+                            nm, ns, want_eff, made.namespace, ref.namespace, 'equal' if hash(made) == hash(ref) else 'differ'))
+                    try:
+                        tr = optree.tree_transpose(made, optree.tree_structure([0, 0]), {ks[0]: [10, 11], ks[1]: [20, 21]})
+                        if tr != [{ks[0]: 10, ks[1]: 20}, {ks[0]: 11, ks[1]: 21}]:
+                            viol('pairing', site, 'tree_transpose with a %s made in namespace %r under mode %s pairs values with the wrong keys: %r' % (nm, ns, want_eff, tr))
+                    except Exception as e:  # noqa: BLE001
+                        viol('pairing', site, 'tree_transpose with a constructor-made treespec raised %s: %s' % (type(e).__name__, e))
                 value_round_trip(viol, site, '%s with %d key(s) in namespace %r under mode %s' % (nm, n_keys, ns, want_eff), made, ns)
         outer = [dict(PROBE_DICT), (defaultdict(int, PROBE_DICT),)]
         ospec = optree.tree_structure(outer, namespace=ns)
